@@ -14,3 +14,77 @@ def obedient_child(running, log_path=None):
     if log_path:
         with open(log_path, "w") as f:
             f.write(f"stopped after {n} cycles running={running.value}\n")
+
+
+# ---------------------------------------------------------------------------
+# C29: device classes that a spawned child can re-import by name
+# ---------------------------------------------------------------------------
+C29_FORMATS = ["B", "H", "I", "Q", "b", "h", "i", "q"]
+
+
+def _c29_formats(k):
+    import random
+    rng = random.Random(1000 + k)
+    return [rng.choice(C29_FORMATS) for _ in range(rng.randint(1, 6))]
+
+
+def _make_c29_classes():
+    import sys
+    sys.path.insert(0, __import__("os").environ.get("EBPFCAT_REPO", "/repo"))
+    from ebpfcat.ebpfcat import Device, DeviceVar
+    out = []
+    for k in range(6):
+        ns = {f"v{j}": DeviceVar(f, write=True)
+              for j, f in enumerate(_c29_formats(k))}
+        ns["__module__"] = __name__
+        ns["__qualname__"] = f"C29Dev{k}"
+        cls = type(f"C29Dev{k}", (Device,), ns)
+        out.append(cls)
+        globals()[f"C29Dev{k}"] = cls
+    return out
+
+
+C29_CLASSES = None
+
+
+def c29_classes():
+    global C29_CLASSES
+    if C29_CLASSES is None:
+        C29_CLASSES = _make_c29_classes()
+    return C29_CLASSES
+
+
+def __getattr__(name):
+    # lets pickle resolve vf.procchild.C29DevK in a fresh child
+    if name.startswith("C29Dev"):
+        c29_classes()
+        return globals()[name]
+    raise AttributeError(name)
+
+
+def c29_child(sg, conn):
+    """runs in the spawned process: report what is visible, then write"""
+    try:
+        while True:
+            msg = conn.recv()
+            if msg[0] == "quit":
+                break
+            if msg[0] == "read":
+                vals = []
+                for d in sg.devices:
+                    cls = type(d)
+                    vals.append([getattr(d, n) for n in sorted(
+                        k for k in cls.__dict__ if k.startswith("v"))])
+                conn.send(("values", vals))
+            elif msg[0] == "write":
+                for d, row in zip(sg.devices, msg[1]):
+                    cls = type(d)
+                    names = sorted(k for k in cls.__dict__
+                                   if k.startswith("v"))
+                    for n, v in zip(names, row):
+                        setattr(d, n, v)
+                conn.send(("done",))
+    except Exception as ex:
+        import traceback
+        conn.send(("error", f"{type(ex).__name__}: {ex}",
+                   traceback.format_exc()[-600:]))
